@@ -62,6 +62,32 @@ def tool_runs(ctx, datas, rng):
     return n
 
 
+def big_patch_runs(ctx):
+    """patches that are perfectly parseable but large in one dimension - the depth of anything recursive must not
+    depend on it: (a) 150000 names linked into one chain through file patches with two names, in the order that
+    makes the distributor's parent chain as long as the number of names (seeded C11-h: a recursive find overflowed
+    the stack of the pool thread), (b) one file patch with 60000 hunks, (c) one hunk of 200000 lines"""
+    n = 150000
+    chain = b"".join(b"--- f%d\n+++ f%d\n@@ -1 +1 @@\n-a\n+b\n" % (i, i) for i in range(n + 1))
+    chain += b"".join(b"--- f%d\n+++ f%d\n@@ -1 +1 @@\n-a\n+b\n" % (k - 1, k) for k in range(n, 0, -1))
+    chain += b"--- f%d\n+++ g\n@@ -1 +1 @@\n-a\n+b\n" % n
+    hunks = b"--- f\n+++ f\n" + b"".join(b"@@ -%d +%d @@\n-l%d\n+m%d\n" % (i, i, i, i) for i in range(1, 60001))
+    long_hunk = b"--- f\n+++ f\n@@ -1,200000 +1,200000 @@\n" + b"".join(b" c%d\n" % i for i in range(199999)) + b"-x\n+y\n"
+    runs = 0
+    for label, data in (("chain of 150000 related names", chain), ("60000 hunks", hunks), ("hunk of 200000 lines", long_hunk)):
+        for args in (["-a", "-q", "--dry-run", "--threads", "2"], ["-a", "-q", "--threads", "1"]):
+            d = ws.make_workspace({"f": (b"aaa\nbbb\nccc\n", None)}, {"p0.patch": b"--- a/missing\n+++ b/missing\n@@ -1 +1 @@\n-x\n+y\n", "p1.patch": data},
+                                  b"p0.patch\np1.patch -p0\n", prefix="c11big")
+            rc, out = ws.run_push(ctx.binary, d, args, timeout=120)
+            runs += 1
+            if rc not in (0, 1):
+                ctx.violation({"kind": "tool-crash-or-hang", "what": label, "args": args, "exit": rc, "patch_bytes": len(data),
+                               "how_to_rebuild": "tools/props/C11.py big_patch_runs builds the patch (too large to store)",
+                               "output_tail": out[-600:].decode("latin-1")})
+            ws.cleanup(d)
+    return runs
+
+
 def series_runs(ctx, rng, count):
     bad = 0
     toks = [b"p.patch", b"-p1", b"-p", b"1", b"-R", b"--strip=2", b"--strip", b"-pX", b"-p-1", b"-p99999999999999999999",
@@ -174,6 +200,7 @@ def run(ctx):
     sample = [c["data"] for lab in ("corpus", "context-free-multi-hunk", "grammar", "mutated-grammar") for c in cases.get(lab, [])[: (150 if thorough else 40)]]
     n_tool = tool_runs(ctx, sample, rng)
     n_series = series_runs(ctx, rng, 300 if thorough else 60)
+    ctx.coverage["big_patch_runs"] = big_patch_runs(ctx)
     ctx.coverage["tool_runs"] = n_tool
     ctx.coverage["series_file_runs"] = n_series
     ctx.coverage["evaluations"] = ctx.coverage.get("evaluations", 0) + n_tool + n_series
